@@ -27,10 +27,11 @@ VARIABLES
     reqKey,      \* request -> note
     reqCls,      \* request -> class
     resp,        \* request -> number of responses seen
+    reqExpect,   \* request -> digest a fresh server answers this request with ("" = not known)
     bad,         \* reasons why the current schedule violates C11 / C12
     nbad         \* number of schedules with a non-empty verdict so far
 
-vars == <<l, case, lastSent, everSent, sentBefore, reqKey, reqCls, resp, bad, nbad>>
+vars == <<l, case, lastSent, everSent, sentBefore, reqKey, reqCls, resp, reqExpect, bad, nbad>>
 
 Empty == [x \in {} |-> 0]
 
@@ -43,15 +44,16 @@ Fresh ==
     /\ reqKey' = Empty
     /\ reqCls' = Empty
     /\ resp' = Empty
+    /\ reqExpect' = Empty
 
 Init ==
     /\ l = 1 /\ case = -1 /\ bad = {} /\ nbad = 0
     /\ lastSent = Empty /\ everSent = Empty /\ sentBefore = Empty
-    /\ reqKey = Empty /\ reqCls = Empty /\ resp = Empty
+    /\ reqKey = Empty /\ reqCls = Empty /\ resp = Empty /\ reqExpect = Empty
 
 Report == IF bad # {} THEN PrintT(<<"VERDICT", ToJson([case |-> case, bad |-> bad])>>) ELSE TRUE
 
-Keep == UNCHANGED <<lastSent, everSent, sentBefore, reqKey, reqCls, resp>>
+Keep == UNCHANGED <<lastSent, everSent, sentBefore, reqKey, reqCls, resp, reqExpect>>
 
 (***************************************************************************)
 (* C11 in the property's words:                                            *)
@@ -76,11 +78,12 @@ Step ==
               /\ reqCls' = (e.r :> e.cls) @@ reqCls
               /\ sentBefore' = (e.r :> Get(lastSent, e.key, 0)) @@ sentBefore
               /\ resp' = (e.r :> 0) @@ resp
+              /\ reqExpect' = (e.r :> (IF "expect" \in DOMAIN e THEN e.expect ELSE "")) @@ reqExpect
               /\ UNCHANGED <<lastSent, everSent, case, bad, nbad>>
          [] e.ev = "SendNot" ->
               /\ lastSent' = (e.key :> e.n) @@ lastSent
               /\ everSent' = (e.key :> (Get(everSent, e.key, {0}) \cup {e.n})) @@ everSent
-              /\ UNCHANGED <<sentBefore, reqKey, reqCls, resp, case, bad, nbad>>
+              /\ UNCHANGED <<sentBefore, reqKey, reqCls, resp, reqExpect, case, bad, nbad>>
          [] e.ev = "Resp" ->
               /\ IF e.r \notin DOMAIN resp
                  THEN bad' = bad \cup {<<"response-to-nothing", e.r>>} /\ resp' = resp
@@ -94,7 +97,11 @@ Step ==
                            \cup (IF reqCls[e.r] = "ok" /\ ~e.err
                                     /\ e.seen \notin Get(everSent, reqKey[e.r], {0})
                                  THEN {<<"invented-text", e.r, e.seen>>} ELSE {})
-              /\ UNCHANGED <<lastSent, everSent, sentBefore, reqKey, reqCls, case, nbad>>
+                           \* "continues to answer later requests correctly": requests do not
+                           \* change the library, so the answer is the one a fresh server gives
+                           \cup (IF reqExpect[e.r] # "" /\ "digest" \in DOMAIN e /\ e.digest # reqExpect[e.r]
+                                 THEN {<<"wrong-answer-after-earlier-requests", e.r>>} ELSE {})
+              /\ UNCHANGED <<lastSent, everSent, sentBefore, reqKey, reqCls, reqExpect, case, nbad>>
          [] e.ev = "Quiescent" ->
               /\ bad' = bad \cup {<<"no-response", r>> : r \in {q \in DOMAIN resp : resp[q] = 0}}
               /\ Keep /\ UNCHANGED <<case, nbad>>
@@ -116,7 +123,7 @@ Step ==
               /\ Report
               /\ nbad' = IF bad # {} THEN nbad + 1 ELSE nbad
               /\ bad' = {} /\ Keep /\ UNCHANGED case
-         [] OTHER -> UNCHANGED <<case, lastSent, everSent, sentBefore, reqKey, reqCls, resp, bad, nbad>>
+         [] OTHER -> UNCHANGED <<case, lastSent, everSent, sentBefore, reqKey, reqCls, resp, reqExpect, bad, nbad>>
 
 Spec == Init /\ [][Step]_vars
 
